@@ -950,6 +950,37 @@ def _activity(st, bundle, res):
 _APP_MIDDLEWARES = []  # one list object per process lifetime (= per case)
 
 
+def _rendezvous_pair(spec, req):
+    """Two sibling coroutine resolvers (same parent object, same selection
+    set) made to wait for each other to have STARTED -- a two-key batch
+    dispatched when full.  The runtime gathers the pending values of one
+    selection set together, so both are in flight and the request completes;
+    a runtime that finishes one pending sibling before starting the next
+    leaves it pending for ever (``hang``).  One world in three; never with
+    crashes or lazily failing lists (abandoned rows are never started)."""
+    exp = req.exp
+    if exp is None or req.variant != "normal" or exp.crash or \
+            (req.wseed >> 23) % 3 != 0 or req.nonfinite:
+        return None
+    if any(k == "generr" or k.startswith("boom") or k == "badenum"
+           for k in req.faults.values()):
+        return None
+    groups = {}
+    for pth, (t, f) in exp.invoked_defs.items():
+        if spec.behaviours.get((t, f)) != "async":
+            continue
+        if req.op.kind == "mutation" and len(pth) == 1:
+            continue  # serial by definition
+        groups.setdefault(pth[:-1], []).append(pth)
+    cands = sorted((sorted(g, key=repr) for g in groups.values()
+                    if len(g) >= 2), key=repr)
+    if not cands:
+        return None
+    g = cands[(req.wseed >> 25) % len(cands)]
+    i = (req.wseed >> 29) % (len(g) - 1)
+    return (g[i], g[i + 1])
+
+
 def _execute(config, bundle, spec, req, sched, policy):
     mode = MODE_OF[config]
     tags = ["R0"] + ["%s%d" % ("RSE"[(req.wseed >> (2 * i)) % 3], i)
@@ -1018,6 +1049,9 @@ def _execute(config, bundle, spec, req, sched, policy):
         "kind": req.op.kind,
     }
     request["in_except"] = req.in_except
+    rv = _rendezvous_pair(spec, req) if mode == "asyncio" else None
+    if rv:
+        request["rendezvous"] = rv
     if req.variant == "policy":
         from py_gql.validation import default_validator
         request["validators"] = [default_validator, _reject_policy]
